@@ -54,6 +54,13 @@ def zero_crossing_rules(chk):
         if not kaz:
             chk.ob("R-ZC-STRICT", cc + "{adjacent zeros}", "a zero is kept iff its distance to the previous zero is > 1", len(adj) >= 1 and
                    all(e.op == "Gt" for e in adj if e.left.kind == K_ARRAY), derived="%s" % [(e.op) for e in adj], loc=adj[0].loc if adj else fi.loc())
+        if not kaz:
+            ed = [e for e in r.events("lib-call", ZC) if e.name == "numpy.ediff1d" and "where-index" in e.args[0].tags]
+            tb = ed[0].kwargs.get("to_begin") if ed else None
+            oks = len(ed) == 1 and tb is not None and tb.has_const() and isinstance(tb.const, (int, float)) and tb.const > 1
+            chk.ob("R-ZC-STRICT", cc + "{first zero}", "the first zero of the series is always kept: its index difference is a literal > 1", oks,
+                   derived="to_begin=%s" % ((tb.const if tb.has_const() else "a computed value") if tb is not None else None), loc=ed[0].loc if ed else fi.loc(),
+                   stmt=ed[0].stmt if ed else None)
         cat = [e for e in r.events("lib-call", ZC) if e.name == "numpy.concatenate"]
         srt = [e for e in r.events("mutation", ZC) if e.how == "ndarray.sort"] + [e for e in r.events("lib-call", ZC) if e.name == "numpy.sort"]
         okc = len(cat) == 1 and cat[0].args[0].items is not None and len(cat[0].args[0].items) == 2 and all("where-index" in i.tags for i in cat[0].args[0].items)
@@ -170,6 +177,12 @@ def switched_rules(chk):
     ops = {e.op for e in cm}
     chk.ob("R-SW-SEL", c + "{boundary}", "an excursion ends when value * reference <= 0 (zeros end an excursion)", ops == {"LtE"},
            derived="%s" % sorted(ops), loc=cm[0].loc if cm else fi.loc())
+    # the boundary decision is that one comparison and nothing else
+    bnd = [n for n in ast.walk(fi.node) if isinstance(n, ast.If) and any(isinstance(x, ast.Compare) and isinstance(x.ops[0], (ast.LtE, ast.Lt, ast.GtE, ast.Gt)) and
+                                                                         isinstance(x.left, ast.BinOp) and isinstance(x.left.op, ast.Mult) for x in ast.walk(n.test))]
+    chk.ob("R-SW-SEL", c + "{boundary test}", "the excursion boundary is decided by the product comparison alone (no further condition)",
+           len(bnd) == 1 and isinstance(bnd[0].test, ast.Compare), derived="test `%s`" % (ast.unparse(bnd[0].test) if bnd else None),
+           loc=fi.loc(bnd[0]) if bnd else fi.loc())
     expect(chk, "R-SW-SEL", c + ".result", r.ret, deg={R: 0}, parity={R: "even"}, dtype="int", sign="nonneg", loc=fi.loc())
 
 
